@@ -20,6 +20,7 @@ def run(ctx):
                         "same counter and a continuation cannot fit behind another message's first segment")
     res.not_decided += ["byte identity of everything delivered under every fault sequence; recovery as a liveness statement"]
     D.rule_segtype_subject(res, "C06-R4", m)
+    D.rule_classifier_reads_type_only(res, "C06-R4", m)
     D.rule_accept_guard(res, "C06-R1", m)
     D.rule_modular_successor(res, "C06-R1", m)
     D.rule_segment_plumbing(res, "C06-R1", m)
